@@ -305,6 +305,8 @@ prop("C06", bounds=PQ_BOUNDS + "; crash at every index of the I/O log of a flush
          H("pq.VerifQueueFault", "a write/sync failure inside the transaction of a flush or an ACK: error, retry succeeds, nothing lost or duplicated, later flushes re-using freed pages do not disturb earlier events, reopen",
            "2 sizes x 2 kinds x 3 ordinals x flush/ACK x reopen", quick={"params": {"nsizes": 2}}, thorough={"params": {"nsizes": 4, "faultords": 5}, "max_paths": 400000, "budget": "1500s"}),
          H("txfile.VerifWriterBigBatch", "durability of large flushes: the data sync covers more than 1024 queued page writes", "1025 / 1525 / 2025 messages"),
+         H("pq.VerifQueueFlushTail", "a flush that only rewrites the already assigned tail page (the added event may end exactly at the page end) meets a write/sync failure: error (no panic), retry succeeds, nothing lost or duplicated",
+           "4 size pairs x 2 kinds x 3 ordinals x reopen"),
      ])
 
 prop("C12", bounds="bounded file of 64 pages, events of 2009 / 993 / 4980 bytes appended until the queue reports an error, drained with ACK steps of 1 or 2, refilled (2 cycles)",
@@ -312,6 +314,8 @@ prop("C12", bounds="bounded file of 64 pages, events of 2009 / 993 / 4980 bytes 
      harnesses=[
          H("pq.VerifQueueFull", "full file: error instead of loss, read+ACK succeed, buffered events flushed later in order, space bound after full ACK, second fill cycle as large as the first", "3 sizes x 2 ACK steps x 2 cycles",
            thorough={"params": {"wbuf": 8192}}),
+         H("pq.VerifQueueFlushTail", "a flush that only rewrites the already assigned tail page (the added event may end exactly at the page end) meets a write/sync failure: error (no panic), retry succeeds, nothing lost or duplicated",
+           "4 size pairs x 2 kinds x 3 ordinals x reopen"),
          H("pq.VerifQueueFault", "a flush / ACK whose transaction fails (injected write/sync failure, i.e. after the pages were allocated): error, the buffered events are kept and flushed by the retry, nothing lost or duplicated, counters exact",
            "2 sizes x 2 kinds x 3 ordinals x flush/ACK x reopen", quick={"params": {"nsizes": 2}}, thorough={"params": {"nsizes": 4, "faultords": 5}, "max_paths": 400000, "budget": "1500s"}),
      ])
